@@ -284,6 +284,20 @@ def check(pid, tier, seed, V, facts, names_path):
     obs = replay(cases, tag)
     for b, o in zip(beh, obs):
         judge(pid, b, o, facts, V)
+    if pid == "C06":
+        # the hash recipes are part of the published format: real preimage (recording Hasher) = specification's,
+        # for every compiled type (the header words of the streams above are xxh3 of the specification's preimage)
+        n = 0
+        for k, fa in facts.items():
+            if fa.get("src"):
+                continue
+            n += 1
+            for w in ("th", "ah"):
+                if fa[w] != fa["spec_" + w + "_pre"]:
+                    V.violate(f"C06:recipe:{k}", f"{k}: the {'type' if w == 'th' else 'alignment'} hash is not the published "
+                              f"function of the type's structure (preimage differs from the specification's recipe)",
+                              {"key": k, "real": fa[w], "spec": fa["spec_" + w + "_pre"]})
+        V.cov["hash_recipes_compared"] = n
     V.cov["traces_validated_against_impl"] += len(beh)
     V.sample({"behaviour": {k: beh[0][k] for k in ("key", "v", "mode", "pre")}, "predicted_out_len": len(beh[0]["ser"]["out"])})
     mid = beh[len(beh) // 2]
